@@ -127,10 +127,33 @@ def _col_pos(sl):
     return None
 
 
-@analysis("roles", ["C02.c", "C02.d", "C02.e"])
+rule("C02.j", "a transport loses commodity on the way to the node that receives it: where the set-up distinguishes the direction of flow (a "
+              "transport whose dispatch is always negative flows from node 2 to node 1 - the cost sign is flipped for it), the efficiency factor "
+              "sits on the receiving node of that direction too; with one fixed placement a reverse transport *creates* commodity (1 / efficiency)",
+     floor=1)
+
+
+def _reverse_flow_guard(p, st, fn):
+    """the enclosing `if all(<cap> <= 0)` (dispatch always negative) in whose body `st` lies, or None"""
+    child = st
+    for a in p.ancestors(st):
+        if isinstance(a, ast.If) and any(child is b0 for b0 in a.body):
+            for c in au.walk_local(a.test):
+                if isinstance(c, ast.Call) and au.method_name(c) == "all" and c.args and isinstance(c.args[0], ast.Compare) and len(c.args[0].ops) == 1:
+                    cmp_ = c.args[0]
+                    if isinstance(cmp_.ops[0], ast.LtE) and au.const_num(cmp_.comparators[0]) == 0 and isinstance(a.test, ast.Call):
+                        return a
+        if a is fn.node:
+            break
+        child = a
+    return None
+
+
+@analysis("roles", ["C02.c", "C02.d", "C02.e", "C02.j"])
 def run(ctx):
     p = ctx.p
     total = 0
+    mirrored = []
     for cname in CLASSES:
         ci = p.cls(cname)
         fn = ci.methods.get("setup_optim_problem")
@@ -157,6 +180,10 @@ def run(ctx):
                     votes.add("out-first")
                 if not votes:
                     continue
+                if _reverse_flow_guard(p, st, fn) is not None:
+                    # the layout for the reverse direction of flow mirrors the default one (what is 'in' for positive dispatch is 'out' for negative)
+                    votes = {{"in-first": "out-first", "out-first": "in-first"}[v] for v in votes}
+                    mirrored.append((cname, st, n, (i0x, o0x, i1x, o1x)))
                 constructs.append((n, au.short(n, 80), votes, (i0x, o0x, i1x, o1x)))
         # ---- paired positional stores: X[0,:] / X[1,:], X.iloc[0:n, k] / X.iloc[n:, k]
         groups = {}
@@ -320,7 +347,31 @@ def run(ctx):
                           "n upper" if want == "U" else " lower", want, letter), node=c)
     ctx.require(n >= 4, "fewer than 4 define_restr call sites found")
 
+    # ================================================================= C02.j efficiency at the receiving node of either direction
+    tr = p.cls("Transport").methods.get("setup_optim_problem")
+    if tr is None:
+        ctx.ob("C02.j", "Transport", "direction of flow", None, "Transport.setup_optim_problem not found")
+    else:
+        # does the set-up distinguish the reverse direction at all?  (an `if all(cap <= 0)` whose body flips a sign)
+        dir_ifs = []
+        for st in au.walk_stmts(tr.body):
+            if isinstance(st, ast.Assign) and isinstance(st.value, ast.UnaryOp) and isinstance(st.value.op, ast.USub):
+                g = _reverse_flow_guard(p, st, tr)
+                if g is not None:
+                    dir_ifs.append(g)
+        if not dir_ifs:
+            ctx.ob("C02.j", tr, "direction of flow", None, "the set-up has no case for a transport whose dispatch is always negative")
+        else:
+            eff_m = [m for m in mirrored if m[0] == "Transport" and any("efficiency" in a for grp in m[3] for a in grp)]
+            ctx.ob("C02.j", tr, "efficiency factor of a transport with negative dispatch", bool(eff_m),
+                   "the set-up treats a transport whose dispatch is always negative as a flow from node 2 to node 1 (%s: the cost sign is flipped) but "
+                   "the dispatch factors are (-1, +efficiency) whatever the direction: for negative dispatch node 1 receives |x| while node 2 gives "
+                   "up only efficiency * |x| - a transport with efficiency 0.5 used in reverse doubles the commodity (value 120 instead of 0 for "
+                   "buying at n2 and selling at n1 at the same price)" % p.where(dir_ifs[0]), node=dir_ifs[0],
+                   ok_detail="mirrored factors under the same direction test", key="efficiency acts at the receiving node of either direction")
+
 
 def _def_line(ctx, fn, name, at):
     ds = [d for d in ctx.flow(fn).defs(name, at) if d.kind == "assign"]
     return min((d.node.lineno for d in ds), default=0)
+
